@@ -257,9 +257,16 @@ def shuffle_keys(rng, d, p=0.5):
 
 def rand_valid(rng, n, kind=None):
     n = tuple(int(k) for k in n)
-    kind = kind or pick(rng, ["all", "random", "random", "sparse", "dense"])
+    kind = kind or pick(rng, ["all", "all", "random", "random", "random", "random", "sparse",
+                              "sparse", "dense", "dense", "none", "one"])
     if kind == "all":
         return np.ones(n, dtype=bool)
+    if kind == "none":
+        return np.zeros(n, dtype=bool)  # nothing valid: still a field
+    if kind == "one":
+        v = np.zeros(n, dtype=bool)  # a single valid cell (or a single invalid one)
+        v[tuple(int(rng.integers(0, k)) for k in n)] = True
+        return v if rng.random() < 0.5 else ~v
     p = {"random": 0.5, "sparse": 0.15, "dense": 0.85}[kind]
     return rng.random(n) < p
 
